@@ -80,6 +80,14 @@ static UNIVERSE: Lazy<Vec<String>> = Lazy::new(|| {
     PICKY_REJECTED.into(),
     // 13: a second did:jwk DID
     format!("did:jwk:{}", b64url(format!(r#"{{"kty":"OKP","crv":"X25519","use":"enc","x":"{}"}}"#, b64url(&bytes(32, 9, 5))).as_bytes())),
+    // 14..=19: further gated DIDs, used by the wide lists of `resolve_multiple` only (more distinct DIDs than any small
+    // fixed number a resolver might keep in flight at once)
+    "did:foo:3".into(),
+    "did:bar:3".into(),
+    "did:foo:4".into(),
+    "did:bar:4".into(),
+    "did:foo:5".into(),
+    "did:bar:5".into(),
   ]
 });
 const ALIAS_DID: &str = "did:foo:A.b-_%41%3a%eF:z"; // (percent-encoded triplets: digits only, lower-case hex, mixed case)
@@ -134,7 +142,14 @@ enum Case {
   /// one schedule (choice sequence of the gate executor) of one list
   Schedule { flavour: u8, cfg: Cfg, list: Vec<u8>, seq: Vec<u32> },
   /// every schedule of one list + the comparison of the outcomes over all of them
-  List { flavour: u8, cfg: Cfg, list: Vec<u8> },
+  List {
+    flavour: u8,
+    cfg: Cfg,
+    list: Vec<u8>,
+    /// deviation bound of the schedule exploration (None = the whole tree); Some only for the wide lists
+    #[serde(default)]
+    bound: Option<u32>,
+  },
   Jwk { wide: bool, seq: Vec<u32> },
   JwkRaw { payload: u8 },
   /// (a2) the DIDs of `dids` resolved one after the other with `resolve` on ONE resolver
@@ -832,6 +847,12 @@ fn multinomial(ks: &[u64]) -> u64 {
 }
 
 fn eval_list(ctx: &Ctx, flavour: u8, cfg: &Cfg, list: &[u8]) {
+  eval_list_b(ctx, flavour, cfg, list, None)
+}
+
+/// `bound`: None = every gate-opening order; Some(b) = every order with at most b departures from "open the first
+/// waiting gate" (wide lists, whose whole tree has n! leaves).
+fn eval_list_b(ctx: &Ctx, flavour: u8, cfg: &Cfg, list: &[u8], bound: Option<u32>) {
   let distinct: BTreeSet<u8> = list.iter().copied().collect();
   let singles: BTreeMap<u8, Exec<String>> = distinct.iter().map(|i| (*i, run_single(flavour, cfg, *i))).collect();
   struct Acc {
@@ -840,7 +861,7 @@ fn eval_list(ctx: &Ctx, flavour: u8, cfg: &Cfg, list: &[u8]) {
     violated: bool,
   }
   let acc = Mutex::new(Acc { outcomes: BTreeMap::new(), hist: BTreeMap::new(), violated: false });
-  let st = choice::explore(None, |ch: &mut Chooser| {
+  let st = choice::explore(bound, |ch: &mut Chooser| {
     let ex = run_multi(flavour, cfg, list, ch);
     let seq = ch.seq();
     let j = judge_multi(ctx, flavour, cfg, list, &seq, &ex, &singles);
@@ -860,7 +881,7 @@ fn eval_list(ctx: &Ctx, flavour: u8, cfg: &Cfg, list: &[u8]) {
   ctx.add_traces(st.executions);
   ctx.add_evals(st.executions);
   let mut hist = acc.hist;
-  let case = Case::List { flavour, cfg: cfg.clone(), list: list.to_vec() };
+  let case = Case::List { flavour, cfg: cfg.clone(), list: list.to_vec(), bound };
   let names: Vec<&str> = list.iter().map(|i| uni(*i)).collect();
   // ---- the set of outcomes over all schedules of this list has size 1
   if acc.outcomes.len() != 1 {
@@ -1365,9 +1386,9 @@ fn eval(ctx: &Ctx, case: &Case) {
       }
       ctx.outcome(&label);
     }
-    Case::List { flavour, cfg, list } => {
+    Case::List { flavour, cfg, list, bound } => {
       for _ in 0..replay_repeats(cfg, list, schedules_bound(cfg, list)) {
-        eval_list(ctx, *flavour, cfg, list)
+        eval_list_b(ctx, *flavour, cfg, list, *bound)
       }
     }
     Case::Jwk { wide, seq } => {
@@ -1490,7 +1511,7 @@ fn generate(ctx: &Ctx) {
   let core: Vec<u8> = ctx.by_tier(vec![0, 1, 2, 3, 4, 11, 12], (0..8).collect());
   let wide: Vec<u8> = ctx.by_tier(vec![], (0..8).chain(11..14).collect());
   let max_len = ctx.by_tier(3, 4);
-  let all_dids: Vec<u8> = (0..UNIVERSE.len() as u8).collect();
+  let all_dids: Vec<u8> = (0..14u8).collect(); // 14..=19 only widen lists (they behave like did:foo:1 / did:bar:1)
   ctx.bound("universe", core.iter().map(|i| uni(*i)).collect::<Vec<_>>());
   ctx.bound("max_list_len", max_len);
   if !wide.is_empty() {
@@ -1557,7 +1578,7 @@ fn generate(ctx: &Ctx) {
   let lists: Vec<Vec<u8>> = all_lists.into_iter().collect();
   let jobs: Vec<(u8, &Cfg)> = (0..2u8).flat_map(|f| cfgs.iter().map(move |c| (f, c))).collect();
   let full = cfgs.iter().find(|c| c.table == 7 && c.k_foo == 2 && c.k_bar == 2 && c.fail_at.is_none() && c.shape == 0).expect("full cfg");
-  ctx.sample("resolve_multiple", &Case::List { flavour: 0, cfg: full.clone(), list: vec![0, 2, 0] });
+  ctx.sample("resolve_multiple", &Case::List { flavour: 0, cfg: full.clone(), list: vec![0, 2, 0], bound: None });
   ctx.sample("resolve_multiple", &Case::Schedule { flavour: 1, cfg: full.clone(), list: vec![0, 2], seq: vec![1, 0, 1] });
   // the joined / shared-gate shapes multiply the schedules of a list (a join of 2 gates doubles them per invocation):
   // they are explored for the lists up to length 3, the sequential shape for all lists
@@ -1570,16 +1591,40 @@ fn generate(ctx: &Ctx) {
   // long lists: few, each with a big tree (the explorer spreads one tree over the pool)
   let long = long_lists(ctx.thorough());
   ctx.bound("long_lists", long.iter().map(|(l, c)| json!({"list": l.iter().map(|i| uni(*i)).collect::<Vec<_>>(), "configurations": c.len()})).collect::<Vec<_>>());
-  ctx.sample("resolve_multiple long list", &Case::List { flavour: 0, cfg: long[1].1[0].clone(), list: long[1].0.clone() });
+  ctx.sample("resolve_multiple long list", &Case::List { flavour: 0, cfg: long[1].1[0].clone(), list: long[1].0.clone(), bound: None });
   for (list, cs) in &long {
     for flavour in 0..2u8 {
       cs.par_iter().for_each(|cfg| eval_list(ctx, flavour, cfg, list));
     }
   }
+  // wide lists: 9 - 12 distinct gated DIDs (+ one that fails at its first poll); the whole tree has n! leaves, so the
+  // schedules are explored up to a deviation bound. On a tree that starts all resolutions at once (the documented
+  // behaviour) every explored schedule is deterministic and all must agree.
+  let wide_bound: u32 = ctx.by_tier(2, 3);
+  let wide_lists: Vec<Vec<u8>> = vec![
+    vec![0, 1, 2, 5, 7, 14, 15, 16, 17],
+    vec![0, 1, 2, 5, 7, 11, 14, 15, 16, 17, 18, 19],
+    vec![0, 1, 2, 5, 7, 14, 15, 16, 17, 3],
+    vec![0, 1, 2, 5, 7, 14, 15, 16, 17, 0, 1],
+  ];
+  let mut wide_cfgs = Vec::new();
+  for table in [T_FOO | T_BAR | T_JWK, T_FOO | T_BAR | T_JWK | T_REPLACED] {
+    for fail_at in [None, Some(0), Some(1)] {
+      wide_cfgs.push(Cfg { table, k_foo: 1, k_bar: 1, fail_at, shape: 0 });
+    }
+  }
+  ctx.bound("wide_lists", wide_lists.iter().map(|l| json!({"list": l.iter().map(|i| uni(*i)).collect::<Vec<_>>(), "configurations": wide_cfgs.len()})).collect::<Vec<_>>());
+  ctx.bound("wide_lists_schedule_deviation_bound", wide_bound);
+  ctx.cap_hit(&format!("resolve_multiple wide lists (9 - 12 distinct gated DIDs): schedules explored up to deviation bound {wide_bound} (complete up to that bound), not the whole tree"));
+  for list in &wide_lists {
+    for flavour in 0..2u8 {
+      wide_cfgs.par_iter().for_each(|cfg| eval_list_b(ctx, flavour, cfg, list, Some(wide_bound)));
+    }
+  }
   for ((flavour, len), a) in AGG.lock().unwrap().iter() {
     ctx.part(
       &format!("resolve_multiple {} len={len}", if *flavour == 0 { "Resolver" } else { "SingleThreadedResolver" }),
-      json!({"engine": "E3b gate executor under E1 choice DFS, whole tree", "list_explorations": a.lists, "executions": a.executions,
+      json!({"engine": if *len >= 9 { "E3b gate executor under E1 choice DFS, deviation-bounded (wide lists)" } else { "E3b gate executor under E1 choice DFS, whole tree" }, "list_explorations": a.lists, "executions": a.executions,
         "choice_tree_nodes": a.nodes, "edges": a.edges, "max_schedules_of_one_list": a.max_executions_per_list, "max_gates_opened": a.max_depth,
         "explorations_with_more_than_one_schedule": a.lists_with_gt1_schedule}),
     );
